@@ -384,10 +384,10 @@ def constraint_definitions(model, rep, rule, only=None):
         return il, out
 
     def method(name):
-        fi = sp.methods.get(name)
-        if fi is None:
+        from .common_ops import flat_method
+        if sp.methods.get(name) is None:
             raise AnalysisError('anchor vanished: SP.' + name)
-        return fi
+        return flat_method(sp, name)          # private helpers (a plate-pose snapshot) read in place
     if only is None or '_continuousTranslationConstraint' in only:
         fi = method('_continuousTranslationConstraint')
         il, cs = compares(fi)
@@ -422,7 +422,8 @@ def constraint_definitions(model, rep, rule, only=None):
     if only is None or '_interiorAnglesConstraint' in only:
         fi = method('_interiorAnglesConstraint')
         il, cs = compares(fi)
-        ok = any((cmp_parts(e, left='abs(self.getJointAnglesFromNorm())') or ('', '', ''))[1:] in (('>', 'self.joint_deflection_max'), ('>=', 'self.joint_deflection_max')) for n, e in cs)
+        ok = any((cmp_parts(e, left=lambda t: t in ('abs(self.getJointAnglesFromNorm())', 'np.abs(self.getJointAnglesFromNorm())', 'np.absolute(self.getJointAnglesFromNorm())'))
+                  or ('', '', ''))[1:] in (('>', 'self.joint_deflection_max'), ('>=', 'self.joint_deflection_max')) for n, e in cs)
         rep.ob(rule, fi, '|angles from normal| > joint_deflection_max', ok, 'joint-deflection constraint compares %s' % [norm_text(e)[:70] for n, e in cs])
     if only is None or '_plateRotationConstraint' in only:
         fi = method('_plateRotationConstraint')
